@@ -790,7 +790,23 @@ class CSemantics:
             if op[0] in ["+", "-"] and lhs.typ.is_pointer:
                 self.ensure_integer(rhs)
                 lhs = self.ensure_no_void_ptr(lhs)
-            rhs = self.coerce(rhs, result_typ)
+
+            if op != "=" and lhs.typ.is_scalar and rhs.typ.is_scalar:
+                # C99 6.5.16.2: 'E1 op= E2' is 'E1 = E1 op (E2)' with E1
+                # evaluated once.  The operation is performed in the type of
+                # 'E1 op E2' (integer promotions / usual arithmetic
+                # conversions), only its result is converted to the type
+                # of E1.  The right operand carries this type to the code
+                # generator.
+                if op in ["<<=", ">>="]:
+                    calc_typ = self.promote(lhs).typ
+                else:
+                    calc_typ = self.get_common_type(
+                        self.promote(lhs).typ, self.promote(rhs).typ, location
+                    )
+                rhs = self.coerce(rhs, calc_typ)
+            else:
+                rhs = self.coerce(rhs, result_typ)
         elif op == ",":
             result_typ = rhs.typ
         elif op == "+":
